@@ -66,6 +66,48 @@ pub fn c04_q_step_after_history() {
     kani::cover!(want != m && m != m0);
 }
 
+/// The modifier record is a function of the key-event history only: the configuration and framing
+/// calls that may be interleaved with events (set_ctrl_handling, clear, bytes and words that do or do
+/// not complete a scancode sequence, change_layout) never change it.
+#[kani::proof]
+pub fn c04_q_other_calls_leave_modifiers_alone() {
+    let calls = Cell::new(0);
+    let m0 = any_mods();
+    let h = any_mode();
+    let mut kb = kbd_with_mods(ScancodeSet2::new(), Spy { tag: false, calls: &calls }, &m0, h);
+    let op: u8 = kani::any();
+    kani::assume(op < 5);
+    match op {
+        0 => kb.set_ctrl_handling(any_mode()),
+        1 => kb.clear(),
+        2 => {
+            let _ = kb.add_byte(kani::any());
+        }
+        3 => {
+            let _ = kb.add_word(kani::any());
+        }
+        _ => {
+            let _ = kb.add_bit(kani::any());
+        }
+    }
+    crate::show!("C04 other call op={} mods before={:?} after={:?}", op, m0, kb.get_modifiers());
+    assert!(*kb.get_modifiers() == m0, "C04: a call that is not a key event changed the reported modifiers");
+    // bare EventDecoder: change_layout / set_ctrl_handling, observed through what the layout is handed next
+    let mut d = evdec(Spy { tag: false, calls: &calls }, &m0, h);
+    let tag: bool = kani::any();
+    let mode = any_mode();
+    if kani::any() {
+        d.change_layout(Spy { tag, calls: &calls });
+        d.set_ctrl_handling(mode);
+    } else {
+        d.set_ctrl_handling(mode);
+        d.change_layout(Spy { tag, calls: &calls });
+    }
+    let probe = d.process_keyevent(KeyEvent::new(KeyCode::F1, KeyState::Down));
+    assert!(probe == Some(enc(tag, KeyCode::F1, &m0, mode)), "C04: change_layout / set_ctrl_handling changed the modifiers handed to the layout");
+    kani::cover!(op == 1 && m0.rctrl2);
+}
+
 /// The same step observed on a bare EventDecoder through what the layout is handed next.
 #[kani::proof]
 pub fn c04_q_step_eventdecoder() {
